@@ -161,6 +161,7 @@ def run(model, rep):
     from . import rename_e2e
     rep.rule('C03.E2E', 'renaming end to end on probe modules: same structure, consistent new names, no two bindings of one name meet (scopes from symtable), interface names untouched')
     rename_e2e.run(model, rep, 'C03.E2E')
+    rename_e2e.idioms(model, rep, 'C03.E2E')
     forms(model, rep)
     # white-box rules: written against internal functions of the renamer; they widen the inputs covered (synthetic scope worlds, 3200 generated names,
     # every syntactic slot) and are reported as not evaluated when those internals do not exist under their names - E2E / EX above decide the behaviour
